@@ -151,7 +151,8 @@ def main(argv=None):
     cls = registry.machine_for(prop)
     sweep_total = cls.sweep_size(tier)
     sweep_n = sweep_total if tier == 'thorough' else min(sweep_total, a.sweep if a.sweep
-                                                         is not None else 600)
+                                                         is not None else
+                                                         getattr(cls, 'SWEEP_QUICK', 600))
     if a.sweep is not None:
         sweep_n = min(sweep_total, a.sweep)
     sblock = max(block, 256)
